@@ -154,8 +154,10 @@ def add_maybe_exponent_stripped(x, y):
         ym = y
         ye = 0.0
 
-    # perform branchless for jit etc.
     e = max(xe, ye)
+    if e == float("-inf"):
+        # both terms are exactly zero: -inf - -inf would be nan
+        return (xm + ym, e)
     m = xm * 10 ** (xe - e) + ym * 10 ** (ye - e)
 
     return (m, e)
@@ -3358,9 +3360,14 @@ class ContractionTree:
         if isinstance(next(iter(chunks.values())), tuple):
             # have stripped exponents, need to scale to largest
             emax = max(v[1] for v in chunks.values())
-            chunks = {
-                k: mi * 10 ** (ei - emax) for k, (mi, ei) in chunks.items()
-            }
+            if emax == float("-inf"):
+                # every chunk is exactly zero: -inf - -inf would be nan
+                chunks = {k: mi for k, (mi, _) in chunks.items()}
+            else:
+                chunks = {
+                    k: mi * 10 ** (ei - emax)
+                    for k, (mi, ei) in chunks.items()
+                }
         else:
             emax = None
 
